@@ -145,12 +145,17 @@ func init() {
 	})
 	reg("vh/vf.Dec", func(e *Exec, a []Value) Value { return bv(e.nonneg(e.strArg(a[0]))) })
 	reg("vh/vf.Time", func(e *Exec, a []Value) Value { return e.symTime(e.strArg(a[0])) })
-	pricingText := func(loose bool) func(e *Exec, a []Value) Value {
+	pricingText := func(loose, withDenom bool) func(e *Exec, a []Value) Value {
 		return func(e *Exec, a []Value) Value {
 			name := e.strArg(a[0])
+			denom := "stake"
+			if withDenom {
+				denom = e.strArg(a[1])
+				a = append([]Value{a[0]}, a[2:]...)
+			}
 			nT := e.concretize(a[1].(*Term), 6)
 			nV := e.concretize(a[2].(*Term), 6)
-			at := &PricingAtt{Price: e.intRange(e.nonneg(name + ".price"))}
+			at := &PricingAtt{Price: e.intRange(e.nonneg(name + ".price")), Denom: denom}
 			valid := e.tt.Bool(true)
 			disc := func(n string) *Term {
 				if !loose {
@@ -202,8 +207,9 @@ func init() {
 			return StrVal{B: e.constStr("<pricing:" + name + ">").B, Att: at}
 		}
 	}
-	reg("vh/vf.PricingText", pricingText(false))
-	reg("vh/vf.PricingTextLoose", pricingText(true))
+	reg("vh/vf.PricingText", pricingText(false, false))
+	reg("vh/vf.PricingTextLoose", pricingText(true, false))
+	reg("vh/vf.PricingTextIn", pricingText(false, true))
 
 	// ---- logic
 	reg("vh/vf.And", func(e *Exec, a []Value) Value { return e.tt.And(a[0].(*Term), a[1].(*Term)) })
@@ -294,7 +300,7 @@ func init() {
 	})
 
 	// ---- environment
-	regFn("vh/vf.Env", func(e *Exec, fn *ssa.Function, a []Value) Value {
+	envFn := func(e *Exec, fn *ssa.Function, a []Value) Value {
 		env := &EnvModel{Store: &StoreModel{}, Params: map[string]Value{}}
 		env.Supply = e.nonneg("supply")
 		e.env = env
@@ -315,6 +321,10 @@ func init() {
 			case "bankKeeper":
 				args[i] = IfaceVal{T: p.Type(), V: ModelVal{Kind: "bankKeeper", Obj: env}}
 			case "tokenKeeper":
+				if len(a) > 0 { // vf.EnvWith: the host application's token keeper is the harness's
+					args[i] = a[0]
+					break
+				}
 				mt := kpkg.Type("MockTokenKeeper").Type()
 				args[i] = IfaceVal{T: mt, V: e.zero(mt)}
 			case "paramSpace":
@@ -329,7 +339,9 @@ func init() {
 		em := e.Call(e.prog.ImportedPackage("github.com/cosmos/cosmos-sdk/types").Func("NewEventManager"), nil, nil)
 		ctx := ModelVal{Kind: "ctx", Obj: &CtxModel{Env: env, Height: e.tt.BV(64, 1), Time: TimeVal{NS: e.tt.Int64(0)}, EvMgr: em}}
 		return TupleVal{k, ctx}
-	})
+	}
+	regFn("vh/vf.Env", envFn)
+	regFn("vh/vf.EnvWith", envFn)
 	reg("vh/vf.WithTx", func(e *Exec, a []Value) Value {
 		c := *a[0].(ModelVal).Obj.(*CtxModel)
 		c.TxHash = IfaceVal{T: types.NewSlice(types.Typ[types.Byte]), V: a[1]}
